@@ -1,8 +1,10 @@
 (* PINNED copy of Gen/C13Facts.v (the facts of the source when the check was last brought in line); used only when T1 fails, so that the case files still compile *)
 From SF Require Import C13.Session.
-Definition gen_cfg : cfg := mkCfg false true true true NLower NLower true true true.
+Definition gen_cfg : cfg := mkCfg false true true true NLower NLower true true true true.
 (* session.sql: lookup key <table>.name; target = last CTE of the view's chain; CTE names already present are
    skipped; added CTEs follow the query's own; qualify (default True) runs first on the catalog's schema cache *)
 Definition splice_shape_recognised : bool := true.
 (* transforms.replace_id_value renames only identifiers that name a table (not part of the Coq model: CTE hash names) *)
 Definition cte_rename_tables_only : bool := true.
+(* dataframe._replace_cte_names_with_hashes keeps one of several CTEs with the same hash name and body *)
+Definition cte_hash_dedupe : bool := true.
